@@ -48,6 +48,8 @@ def sources():
         ("samename_ledger", os.path.join(core.VERIF, "sim", "c12", "schemas", "samename", "ledger.xsd"), False, 2),
         ("harness_all", os.path.join(core.VERIF, "sim", "c12", "schemas"), True, 3),
     ]
+    for k in range(1, 9):
+        cands.append((f"gen{k}", os.path.join(core.VERIF, "sim", "c12", "schemas", f"gen{k}"), False, 1))
     return [c for c in cands if os.path.exists(c[1])]
 
 
